@@ -10,6 +10,10 @@ CLAIMED = {
    text="VCs from the real source of zcross, clip (4 None-modes, each generator expression verified as a generator), unwrap, maverage.deque (outer + nested generator, prefix-sum specification function with an induction lemma) and accumulate.func are all discharged for every input length and every real sample value: zcross against the sign automaton of the statement, clip pointwise/bounds/idempotence/ValueError, unwrap (integer ghost witness for 'multiples of step', no-jump-untouched, adjacent jump <= max(max_delta, step/2)), moving average == mean of the last size samples with zero history, running sums; one output per input and k+1 reads (C02). NOT yet under contract in this snapshot: maverage.recursive/fir, envelope.*, amdf, accumulate.z (listed in evidence).",
    note="floats treated as reals (size*(1/size)==1); real modulo modelled by an uninterpreted integer quotient FDIV constrained at each use; @tostream wrapping accounted by the Stream constructor model; pyvc + z3 trusted.",
    technique="deductive verification: sidecar loop invariants, yield contracts, ghost witnesses, induction lemmas; VCs from the real AST; z3 (cvc5 on unknown)"),
+ "C19": dict(category="proof",
+   text="VCs from the real source, all discharged, for every duration and every real parameter value: line (int(dur+.5) samples begin+i*(end-begin)/(dur-finish)), fadein/fadeout (delegation to line with the documented end points, bound against line's real signature), ones, zeros, impulse (endless for None/inf, documented lengths), adsr and attack (piecewise-linear shapes and lengths), white_noise (length rint(dur), range [low,high] from the random.uniform model), rint (nearest integer, half away from zero). NOT yet under contract in this snapshot: modulo_counter, TableLookup, sinusoid, karplus_strong, resample (listed in evidence as not covered).",
+   note="floats as reals; int()/round() per CPython; random.uniform library model; pyvc + z3 trusted.",
+   technique="deductive verification: loop invariants + yield contracts in sidecar, VCs from the real AST, z3"),
 }
 NOT_APPLICABLE = {p: _PENDING for p in ["C%02d" % i for i in range(1, 21)]}
 NOT_APPLICABLE["C17"] = "thread interleavings and shutdown liveness: sequential function contracts cannot express or decide schedules or whole-history liveness; no ownership/rely-guarantee logic for Python threads is available here (DESIGN.md section 5)"
